@@ -8,7 +8,7 @@ configured default.
 from fractions import Fraction as F
 
 from .. import oracle as O
-from ..core import Stats, pmap
+from ..core import Stats, guarded, pmap
 from ..world import World
 
 QUANTA = ['i:1', 'D:0.5', 'D:0.25', 'D:0.1', 'F:1/3', 'i:25']
@@ -44,6 +44,7 @@ def holders(x):
     return out
 
 
+@guarded('C13')
 def run_quantize(w, tname, s_self, s_quant, quant, t, mode, how, st=None):
     """how: 'explicit' (rounding=mode) or 'default' (mode configured)"""
     cls = w.types[tname]
@@ -93,6 +94,7 @@ def run_quantize(w, tname, s_self, s_quant, quant, t, mode, how, st=None):
     return out
 
 
+@guarded('C13')
 def run_round(w, tname, s, x, n, st=None):
     cls = w.types[tname]
     out = []
@@ -119,6 +121,7 @@ def run_round(w, tname, s, x, n, st=None):
     return out
 
 
+@guarded('C13')
 def run_reject(w, case):
     """quantum of another type / type without reference unit -> TypeError"""
     kind = case[0]
